@@ -213,7 +213,7 @@ PROPS["C16"] = {
                  "Rough.Props.C16.C16_sources_agree", "Rough.Props.C16.C16_unknown_key_refused", "Rough.Props.C16.C16_missing_required", "Rough.Props.C16.C16_parse_show", "Rough.Props.C16.C16_sources_disagree_witness"],
     "streams": [{"args": ["cfg"], "shards_quick": 8, "shards_thorough": 16}],
     "ops": ["cfg"], "trivial": r"^cfg:base:", "min_nontrivial": 200,
-    "rule": "one probe process per case and source runs make_config + is_valid_config and prints every ServerConfig getter or `refused` (Err, false, or panic); for every refused case the REAL roughenough-server binary is started with the same settings and must exit (L1 if it keeps running with settings the property says must fail; L2 if its status is not 1): each of port, batch_size, fault_percentage, num_workers, status_interval, health_check_port x 35 boundary values (-70000 .. 2^32+1 incl. 0, 1, 50/51, 64/65, 255/256/257, 300, 65535/65536, 70000, 83222) and non-integers, through the YAML file AND the documented environment variable; 60 (quick) / 400 (thorough) random in-range combinations incl. client_stats + persistence_directory; each out-of-range/invalid setting again in the company of client_stats+directory and other valid settings; missing required keys; unknown keys; seeds of wrong length/alphabet and an all-digit seed; interface / kms_protection / client_stats variants. L1 = effective value equals written value when started, out-of-range / missing / unknown refused, both sources agree. non-trivial = any case that varies a setting",
+    "rule": "one probe process per case and source runs make_config + is_valid_config and prints every ServerConfig getter or `refused` (Err, false, or panic); for every refused case the REAL roughenough-server binary is started with the same settings and must exit (L1 if it keeps running with settings the property says must fail; L2 if its status is not 1): each of port, batch_size, fault_percentage, num_workers, status_interval, health_check_port x 35 boundary values (-70000 .. 2^32+1 incl. 0, 1, 50/51, 64/65, 255/256/257, 300, 65535/65536, 70000, 83222) and non-integers, through the YAML file AND the documented environment variable; 60 (quick) / 400 (thorough) random in-range combinations incl. client_stats + persistence_directory; each out-of-range/invalid setting again in the company of client_stats+directory and other valid settings; unknown keys with blank / null / word values and documented keys with a YAML null; missing required keys; unknown keys; seeds of wrong length/alphabet and an all-digit seed; interface / kms_protection / client_stats variants. L1 = effective value equals written value when started, out-of-range / missing / unknown refused, both sources agree. non-trivial = any case that varies a setting",
     "trusted_base": ["yaml-rust scalar typing and str::parse are represented by small functions of Model/Config.lean validated on the grid", "file-system facts for persistence_directory are a parameter of the model"],
     "assumptions": ["status_interval is documented only within 1..=65535 (the environment loader reads a u16, the file loader a u64)", "available_parallelism() is passed to the model as the default num_workers"],
     "design_ref": "5/C16",
